@@ -6,6 +6,54 @@ pub open spec fn ext(a: Seq<SemanticErrorKind>, b: Seq<SemanticErrorKind>) -> bo
 pub open spec fn ext_tr(a: Seq<context::Ev>, b: Seq<context::Ev>) -> bool { a.len() <= b.len() && b.take(a.len() as int) == a }
 /// the analyser only ever appends: diagnostics and symbol-table events
 pub open spec fn grows(c0: Context, c1: Context) -> bool { ext(c0.errs(), c1.errs()) && ext_tr(c0.trace(), c1.trace()) }
+/// every binding of `a` is a binding of `b`
+pub open spec fn sub_scope(a: symbols::Scope, b: symbols::Scope) -> bool { forall|k: Seq<char>| #[trigger] a.contains_key(k) ==> b.contains_key(k) && a[k] == b[k] }
+/// C03 / C07: what any piece of analysis may do to the symbol table: the same scopes are open
+/// afterwards (every scope it entered has been left), outer scopes are untouched, and the current
+/// scope can only have gained bindings (nothing is replaced or removed)
+pub open spec fn scoped(c0: Context, c1: Context) -> bool {
+    &&& grows(c0, c1)
+    &&& c1.wf()
+    &&& c1.symbol_table.scope_types() == c0.symbol_table.scope_types()
+    &&& c1.scopes().len() == c0.scopes().len()
+    &&& c1.scopes().drop_last() == c0.scopes().drop_last()
+    &&& sub_scope(c0.scopes().last(), c1.scopes().last())
+}
+pub broadcast proof fn lemma_scoped_refl(c: Context) requires c.wf(), ensures #[trigger] scoped(c, c) {
+    assert(c.errs().take(c.errs().len() as int) =~= c.errs()); assert(c.trace().take(c.trace().len() as int) =~= c.trace());
+}
+pub broadcast proof fn lemma_scoped_trans(a: Context, b: Context, c: Context)
+    requires #[trigger] scoped(a, b), #[trigger] scoped(b, c), ensures scoped(a, c)
+{
+    lemma_ext_trans(a.errs(), b.errs(), c.errs()); lemma_extt_trans(a.trace(), b.trace(), c.trace());
+}
+/// binding a name that the current scope does not have yet
+pub broadcast proof fn lemma_bind_in(st: Seq<symbols::Scope>, name: Seq<char>, v: (symbols::SymbolId, Type))
+    requires st.len() >= 1,
+    ensures (#[trigger] symbols::bind_in(st, name, v)).len() == st.len(),
+        symbols::bind_in(st, name, v).drop_last() == st.drop_last(),
+        symbols::bind_in(st, name, v).last() == st.last().insert(name, v),
+        !st.last().contains_key(name) ==> sub_scope(st.last(), symbols::bind_in(st, name, v).last()),
+{
+    assert(symbols::bind_in(st, name, v).drop_last() =~= st.drop_last());
+}
+/// the new binding is what the name resolves to; every other name resolves as before
+pub broadcast proof fn lemma_resolve_bind(st: Seq<symbols::Scope>, name: Seq<char>, v: (symbols::SymbolId, Type), m: Seq<char>)
+    requires st.len() >= 1,
+    ensures #[trigger] symbols::resolve_in(symbols::bind_in(st, name, v), m) == if m == name { Some(v) } else { symbols::resolve_in(st, m) },
+{
+    let st2 = symbols::bind_in(st, name, v);
+    assert(st2.drop_last() =~= st.drop_last());
+    assert(st2.last() == st.last().insert(name, v));
+}
+pub broadcast proof fn lemma_push_drop_last<A>(s: Seq<A>, x: A) ensures #[trigger] s.push(x).drop_last() == s { assert(s.push(x).drop_last() =~= s); }
+/// entering a scope, analysing (scoped) and leaving it restores the table exactly
+pub broadcast proof fn lemma_enter_exit(c0: Context, c1: Context, c2: Context)
+    requires c0.wf(), c1.scopes() == c0.scopes().push(Map::<Seq<char>, (symbols::SymbolId, Type)>::empty()), #[trigger] scoped(c1, c2),
+    ensures c2.scopes().drop_last() == #[trigger] c0.scopes(), c2.scopes().len() > 1,
+{
+    assert(c1.scopes().drop_last() =~= c0.scopes());
+}
 pub open spec fn cond1(c: bool, k: SemanticErrorKind) -> Seq<SemanticErrorKind> { if c { seq![k] } else { Seq::empty() } }
 
 // ---- C06: operators map to the graph operator of the same meaning ------------------------------
@@ -120,7 +168,7 @@ pub broadcast proof fn lemma_extt_push(a: Seq<context::Ev>, k: context::Ev) ensu
 pub broadcast proof fn lemma_ext_drop_last(b: Seq<SemanticErrorKind>)
     requires b.len() >= 1, ensures ext(#[trigger] b.drop_last(), b)
 { assert(b.take(b.len() - 1) =~= b.drop_last()); }
-pub broadcast group sema_lemmas { lemma_ext_drop_last, lemma_extt_push, lemma_extt_refl, lemma_extt_then_push, lemma_extt_trans, lemma_ext_then_push, lemma_ext_then_add, lemma_ext_add2, lemma_ext_refl, lemma_ext_push, lemma_ext_add, lemma_ext_trans, lemma_add_empty, lemma_add_one }
+pub broadcast group sema_lemmas { lemma_scoped_refl, lemma_scoped_trans, lemma_bind_in, lemma_resolve_bind, lemma_push_drop_last, lemma_enter_exit, lemma_ext_drop_last, lemma_extt_push, lemma_extt_refl, lemma_extt_then_push, lemma_extt_trans, lemma_ext_then_push, lemma_ext_then_add, lemma_ext_add2, lemma_ext_refl, lemma_ext_push, lemma_ext_add, lemma_ext_trans, lemma_add_empty, lemma_add_one }
 
 /// C13, gate calls.  `mid` is the analyser state after the operands and parameters were analysed
 /// (their own diagnostics come first); then the name is resolved once (UndefGateError if that
